@@ -43,6 +43,10 @@ def gen_world(seed, tier):
             nums = [x for x in nums if x <= total]
         if not nums:
             nums = [base[0]]
+        if r3.random() < 0.12:
+            nums.insert(r3.randrange(len(nums) + 1), 0)          # 0 is a number too (the empty sum)
+        if r3.random() < 0.08:
+            nums.append(total)
         args = {"numbers": nums, "total": total, "weight_type": rng.choice(["int", "int", "float"]),
                 "max_multiplicity": mult, "lowerbound": rng.choice([1, 1, 1, 2]), "solver_options": {}}
         if rng.random() < 0.3:
@@ -55,8 +59,8 @@ def gen_world(seed, tier):
                 for b in base:
                     rng.choice(groups).append(b)
                 pc = [sum(gp) for gp in groups if gp]
-                if len(pc) >= 2 and pc not in pcs:
-                    pcs.append(pc)
+                if (len(pc) >= 2 or r3.random() < 0.5) and pc not in pcs:
+                    pcs.append(pc)          # also the trivial partition [total]
             if pcs:
                 args["partition_constraints"] = pcs
                 if rng.random() < 0.5:
